@@ -54,11 +54,15 @@ Qed.
 Theorem IsSlashWindowClosing_tie h p w : h < two63 ->
   IsSlashWindowClosing h p w = window_closing_u h p w /\ IsSlashWindowClosing_panics h p w = false.
 Proof.
-  intros Hh. unfold IsSlashWindowClosing, IsSlashWindowClosing_panics, window_closing_u.
-  destruct ((w =? 0) || (h <? 0)) eqn:E; [split; reflexivity|].
-  cbv zeta. apply Bool.orb_false_iff in E. destruct E as [E1 E2].
-  rewrite geb_leb, E1, Bool.andb_false_r. split; [|reflexivity].
-  unfold to_uint64. rewrite Z.mod_small by (unfold two64, two63 in *; lia). reflexivity.
+  intros Hh.
+  assert (Hu : 0 <= h -> to_uint64 h = h) by (intros; apply to_uint64_small; unfold two64, two63 in *; lia).
+  unfold IsSlashWindowClosing, IsSlashWindowClosing_panics, window_closing_u. cbv zeta.
+  destruct (Z.ltb_spec h 0) as [Hneg|Hpos].
+  - rewrite Bool.orb_true_r. split; arith_cases.
+  - rewrite (Hu Hpos). generalize (wrap64 (p * 2)) as m2. intros m2.
+    destruct (Z.eqb_spec w 0) as [->|Hw]; [split; arith_cases|].
+    generalize (Z.mod_pos_bound h w) (Z.mod_neg_bound h w). generalize (h mod w) as r. intros r B1 B2.
+    split; arith_cases.
 Qed.
 
 (* the tally gate and the gate of the slash window inside the end-blocker *)
